@@ -32,7 +32,7 @@ func c07(c *Ctx) {
 	r.Floor("R2.entries-growth", 2)
 	r.Floor("R2.replacements-growth", 3)
 	r.Floor("R2.limits", 4)
-	r.Floor("R3.insert-gates", 4)
+	r.Floor("R3.insert-gates", 5)
 	r.Floor("R3.record-ip", 1)
 	r.Floor("R4.mapping", 3)
 	r.Floor("R5.pairing", 4)
@@ -164,6 +164,36 @@ func c07(c *Ctx) {
 			w1 := core.InstrGuarded(w.Store, g.Edge, nil)
 			r.Check(w1 == nil, "R3.insert-gates", m.key(w, "replacement-ip-reserved"), p.Pos(w.Store.Pos()),
 				"push into replacements only after a successful IP-limit reservation", "a node enters the replacement list without a successful IP-limit reservation: "+p.PathString(w1))
+			// an id is in entries or in replacements, never both: the function that pushes into the
+			// replacement list is called only for an id that the record updater did not find among the
+			// entries (otherwise a re-announced live entry also becomes a replacement and can later be
+			// promoted next to itself)
+			{
+				notInEntries := core.AnyFact(func(f core.Fact) bool {
+					if f.Op != token.EQL {
+						return false
+					}
+					isUpd := func(v ssa.Value) bool {
+						ex, ok := v.(*ssa.Extract)
+						if !ok {
+							return false
+						}
+						cc, ok := ex.Tuple.(*ssa.Call)
+						return ok && callReaches(cc, m.updaters)
+					}
+					return (isUpd(f.X) && core.IsNilConst(f.Y)) || (isUpd(f.Y) && core.IsNilConst(f.X))
+				})
+				callers := p.CallersOfFn(w.Fn)
+				nc := 0
+				for _, cf := range core.SortedFuncs(callers) {
+					for _, cs := range callers[cf] {
+						nc++
+						wq := core.InstrGuarded(cs, notInEntries, nil)
+						r.Check(wq == nil, "R3.insert-gates", fmt.Sprintf("%s→%s #%d replacement-not-a-live-entry", core.FuncName(cf), core.FuncName(w.Fn), nc), p.Pos(cs.Pos()),
+							"a node is offered to the replacement list only after the entries were searched for its id and it was not found", "a node that is already a live entry of the bucket can also be put on the replacement list (and later be promoted: the same id twice in entries): "+p.PathString(wq))
+					}
+				}
+			}
 		case shapeShrink, shapeEmpty:
 			r.Pass("R2.replacements-growth", m.key(w, "shrink"), p.Pos(w.Store.Pos()), "shrinking write")
 		case shapeAppend:
